@@ -103,8 +103,8 @@ func c08Rules(root string) []string {
 		"!^" + R + "/sec/",
 		`\.log$`,
 		`!\.txt$`,
-		"^" + R + `/pub/[[:alpha:]]+\.log$`,  // bare allow containing ':'
-		`![[:alpha:]]+/s\.log$`,              // bare deny containing ':'
+		"^" + R + `/pub/[[:alpha:]]+\.log$`, // bare allow containing ':'
+		`![[:alpha:]]+/s\.log$`,             // bare deny containing ':'
 		"readfiles:^" + R + "/pub/",
 		"readfiles:!^" + R + "/sec/",
 		"other:^/.*",
